@@ -72,6 +72,9 @@ def main(argv=None):
     sys.path.insert(0, VERIF)
     if os.environ.get("VERIF_REPO"):
         sys.path.insert(0, os.environ["VERIF_REPO"])  # replay imports the same tree the VCs came from
+    import logging
+
+    logging.getLogger("trimesh").setLevel(logging.CRITICAL)  # the library logs tracebacks of handled errors
     from pyvc import engine, mirror
 
     try:
